@@ -220,6 +220,11 @@ def getPlain (a : Attrs) (k : Str) : Option Str :=
   | some (.str s) => some s
   | _ => .none
 
+/-- `tag.getAttribute(k)` as the index functions use it.  Indexes on `class` / `style` (which `getAttribute`
+    answers with the class string / the style object) are not modelled: such an element is simply not indexed. -/
+def getIdx (a : Attrs) (k : Str) : Option Str :=
+  if k = sClass || k = sStyle then .none else getPlain a k
+
 /-- what `self._attributes.get(key)` returns inside `isTagEqual`, as a comparable value:
     `class` → the class string, `style` → the style map, else the rendered raw value. -/
 inductive GVal where
@@ -570,18 +575,18 @@ def indexOne (ix : Index) : DN → Index
   | .text _ => ix
   | .el o _ n a _ _ _ _ _ _ =>
     let ix1 := if ix.ids then
-        (match Attrs.getPlain a (str "id") with
+        (match Attrs.getIdx a (str "id") with
          | some v => if v.isEmpty then ix else { ix with idMap := dset v o ix.idMap }
          | .none => ix) else ix
     let ix2 := if ix1.names then
-        (match Attrs.getPlain a (str "name") with
+        (match Attrs.getIdx a (str "name") with
          | some v => if v.isEmpty then ix1 else { ix1 with nameMap := dappend v o ix1.nameMap }
          | .none => ix1) else ix1
     let ix3 := if ix2.classes then { ix2 with classMap := a.cls.foldl (fun m c => dappend c o m) ix2.classMap } else ix2
     let ix4 := if ix3.tags then { ix3 with tagMap := dappend n o ix3.tagMap } else ix3
     -- `_otherIndexFunction` per indexed attribute: `tag.getAttribute(name)` when it is not None
     { ix4 with attrMaps := ix4.attrMaps.map (fun p =>
-        match Attrs.getPlain a p.1 with
+        match Attrs.getIdx a p.1 with
         | some v => (p.1, dappend v o p.2)
         | .none => p) }
 
